@@ -97,6 +97,37 @@ type c14Case struct {
 	Size    int `json:"size"`
 }
 
+// c14Sequences: the pieces of a message depend on the message and the fragment size in force, not on what the same
+// conversation cut before: every ordered pair of sizes, same conversation, compared with a fresh one
+func c14Sequences(w *verifWorld, v int) (fs []verifFinding, n int) {
+	sizes := []int{0, 30, 37, 60, 120, 400, 1400, 65535}
+	for _, l := range []int{200, 700} {
+		data := verifC14Payload(l)
+		for _, s1 := range sizes {
+			for _, s2 := range sizes {
+				n++
+				conv := *w.P[0].C
+				fresh := *w.P[0].C
+				var got, want []ValidMessage
+				func() {
+					defer func() { _ = recover() }()
+					conv.fragment(encodedMessage(append([]byte{}, data...)), uint16(s1))
+					got = conv.fragment(encodedMessage(append([]byte{}, data...)), uint16(s2))
+					want = fresh.fragment(encodedMessage(append([]byte{}, data...)), uint16(s2))
+				}()
+				same := len(got) == len(want)
+				for i := 0; same && i < len(got); i++ {
+					same = bytes.Equal(got[i], want[i])
+				}
+				if !same {
+					fs = append(fs, verifFinding{"C14:pieces-depend-on-history", fmt.Sprintf("v%d, %d-byte message: after cutting with fragment size %d the same conversation cuts with size %d into %d piece(s), a fresh one into %d", v, l, s1, s2, len(got), len(want))})
+				}
+			}
+		}
+	}
+	return
+}
+
 func verifC14Payload(l int) []byte {
 	b := []byte("?OTR Error: ")
 	for i := 0; len(b) < l; i++ {
@@ -118,7 +149,10 @@ func verifC14Grid(w *verifWorld, c c14Case, feed bool) (fs []verifFinding, inDom
 				panicked = fmt.Sprintf("%v @ %s", r, verifPanicSite())
 			}
 		}()
-		out = snd.C.fragment(encodedMessage(append([]byte{}, data...)), uint16(c.Size))
+		// every case on a copy of the sender as it is after the handshake: what it cut before must not matter here
+		// (that it does not is checked separately, c14Sequences)
+		sc := *snd.C
+		out = sc.fragment(encodedMessage(append([]byte{}, data...)), uint16(c.Size))
 	}()
 	if panicked != "" {
 		return []verifFinding{{"C14:fragment-panic:" + verifPanicClass(panicked), fmt.Sprintf("fragment() of a %d-byte message with size %d (v%d): %s", c.Len, c.Size, c.Version, panicked)}}, false, 0
@@ -505,12 +539,24 @@ func init() {
 				return nil
 			}
 			w := verifEstablished(seed, c.Version, 0)
+			if c.Len == -1 {
+				fs, _ := c14Sequences(w, c.Version)
+				return fs
+			}
 			fs, _, _ := verifC14Grid(w, c, true)
 			return fs
 		},
 		Run: func(r *verifReport) {
-			r.Rule = "(a) grid: message length × EVERY fragment size 0..65535 × both header formats; pieces parsed and reassembled by an independent implementation of the fragment format, and fed to a real receiver (all sizes for lengths ≤ 1024; for longer messages when ≤ 64 pieces or size ≤ 300); non-trivial = in the property's domain (room for ≥1 payload byte, ≤ 65535 pieces) and actually fragmented. (b) arrival sequences: complete state-graph search over an alphabet of next/restart/wrong-total/illegal-index/non-numeric/garbage/foreign-instance fragments and whole messages, implementation compared at every step with the specification's reassembler (nondeterministic only in whether a whole message forgets a partial stream); plus the same without state matching to a fixed depth, and from first contact (receiver not yet bound to a peer instance: the first well-formed fragment decides whose pieces are foreign)"
+			r.Rule = "(a) grid: message length × EVERY fragment size 0..65535 × both header formats; pieces parsed and reassembled by an independent implementation of the fragment format, and fed to a real receiver (all sizes for lengths ≤ 1024; for longer messages when ≤ 64 pieces or size ≤ 300); non-trivial = in the property's domain (room for ≥1 payload byte, ≤ 65535 pieces) and actually fragmented. (a') every ordered pair of fragment sizes on one conversation: the second cut equals that of a fresh conversation. (b) arrival sequences: complete state-graph search over an alphabet of next/restart/wrong-total/illegal-index/non-numeric/garbage/foreign-instance fragments and whole messages, implementation compared at every step with the specification's reassembler (nondeterministic only in whether a whole message forgets a partial stream); plus the same without state matching to a fixed depth, and from first contact (receiver not yet bound to a peer instance: the first well-formed fragment decides whose pieces are foreign)"
 			r.Assumptions = []string{"payloads are OTR error messages (processing reports the exact content) and, in a second variant, real data messages", "fragment sizes and lengths outside the listed lengths are not covered"}
+			for _, v := range []int{3, 2} {
+				fs, n := c14Sequences(verifEstablished(r.Seed, v, 0), v)
+				r.Evals += int64(n)
+				r.Nontrivial += int64(n)
+				for _, f := range fs {
+					r.addCase("C14", f.Sig, f.Detail, c14Case{Version: v, Len: -1})
+				}
+			}
 			// (b) first: cheap
 			depthND := 4
 			if r.Tier == "thorough" {
